@@ -54,6 +54,8 @@ pub struct Shape {
     pub kind: String,
     pub n: usize,
     pub m: usize,
+    /// nested types: the scalar dual number type the stored scalars belong to
+    pub inner: Option<String>,
 }
 
 fn fields(kind: &str) -> Vec<&'static str> {
@@ -83,13 +85,29 @@ const RE_VALS: [(i64, i64); 9] = [(0, 1), (1, 1), (-1, 1), (2, 1), (-2, 1), (4, 
 const RE_INT: [(i64, i64); 6] = [(0, 1), (1, 1), (-1, 1), (2, 1), (-2, 1), (4, 1)];
 
 pub fn random_value(rng: &mut Rng, sh: &Shape, f32mode: bool) -> Value {
-    let part = |rng: &mut Rng| {
-        let (n, d) = if f32mode { *rng.pick(&SMALL_INT) } else { *rng.pick(&SMALL) };
-        json!([n, d])
+    // a stored scalar: a rational, or (nested types) an inner number with that real part and small integer parts
+    let lift = |rng: &mut Rng, re: Value| -> Value {
+        match &sh.inner {
+            None => re,
+            Some(k) => {
+                let mut o = serde_json::Map::new();
+                o.insert("re".into(), re);
+                for f in fields(k) {
+                    let (n, d) = if rng.below(5) == 0 { (0, 1) } else { *rng.pick(&SMALL_INT) };
+                    o.insert(f.into(), json!([n, d]));
+                }
+                Value::Object(o)
+            }
+        }
     };
-    let (rn, rd) = if f32mode { *rng.pick(&RE_INT) } else { *rng.pick(&RE_VALS) };
+    let ints = f32mode || sh.inner.is_some();
+    let part = |rng: &mut Rng| {
+        let (n, d) = if ints { if sh.inner.is_some() && rng.below(4) == 0 { (0, 1) } else { *rng.pick(&SMALL_INT) } } else { *rng.pick(&SMALL) };
+        lift(rng, json!([n, d]))
+    };
+    let (rn, rd) = if ints { *rng.pick(&RE_INT) } else { *rng.pick(&RE_VALS) };
     let mut o = serde_json::Map::new();
-    o.insert("re".into(), json!([rn, rd]));
+    o.insert("re".into(), lift(rng, json!([rn, rd])));
     let vec = sh.kind.ends_with("Vec");
     for f in fields(&sh.kind) {
         if vec {
@@ -98,7 +116,7 @@ pub fn random_value(rng: &mut Rng, sh: &Shape, f32mode: bool) -> Value {
             } else {
                 let (r, c) = dims(sh, f);
                 let zero = rng.below(6) == 0;
-                let m: Vec<Value> = (0..r).map(|_| Value::Array((0..c).map(|_| if zero { json!([0, 1]) } else { part(rng) }).collect())).collect();
+                let m: Vec<Value> = (0..r).map(|_| Value::Array((0..c).map(|_| if zero { lift(rng, json!([0, 1])) } else { part(rng) }).collect())).collect();
                 o.insert(f.into(), json!({"p": true, "m": m}));
             }
         } else {
